@@ -3,7 +3,7 @@
    SetRdsMachine.v, SetTtl.v, SetImm.v. *)
 From Coq Require Import Permutation.
 From DV Require Import Base.Prelude Model.SetM Proofs.SetAlg Proofs.SetRdata Proofs.SetMachine
-  Proofs.SetRds Proofs.SetRdsMachine Proofs.SetTtl Proofs.SetImm.
+  Proofs.SetRds Proofs.SetRdsMachine Proofs.SetTtl Proofs.SetImm Proofs.SetObj.
 From DV Require Model.NameM Model.SchemaM Model.DnssecM Model.SetCanonM Proofs.DnssecRef Proofs.SetCanon Proofs.SetCanonRfc.
 Open Scope Z_scope.
 
@@ -520,6 +520,42 @@ Theorem as_tuple_immutable : forall enc ml eok v r,
 Proof. exact as_tuple_bytes_imm. Qed.
 Print Assumptions as_tuple_immutable.
 
+(* copy / deepcopy / pickle: cls.__new__(cls).__setstate__(self.__getstate__()) is an object with
+   exactly the fields of the original - slots and, for classes without __slots__, the instance
+   dictionary (the state the fix 7fab959 added) - hence an equal record *)
+Theorem getstate_returns_every_field : forall cs o,
+  wf_obj cs o -> getstate cs o = Ok (oslots o ++ odict o).
+Proof. exact getstate_all_fields. Qed.
+Print Assumptions getstate_returns_every_field.
+
+Theorem copy_is_the_same_record : forall cs hd o state,
+  wf_obj cs o -> In rdcomment_id cs -> (odict o = [] \/ hd = true) ->
+  getstate cs o = Ok state -> setstate cs hd state = Ok o.
+Proof. exact copy_has_the_same_fields. Qed.
+Print Assumptions copy_is_the_same_record.
+
+(* replace(): class and type cannot be replaced, unknown fields are refused, and the new record
+   is built by the class constructor from the kept and the replaced fields *)
+Theorem replace_cannot_change_class_or_type : forall params ctor cs hd o kwargs k v,
+  In (k, v) kwargs -> (k = 0 \/ k = 1) ->
+  replace params ctor cs hd o kwargs = Internal iAttributeError.
+Proof. exact replace_refuses_class_and_type. Qed.
+Print Assumptions replace_cannot_change_class_or_type.
+
+Theorem replace_refuses_unknown : forall params ctor cs hd o kwargs k v,
+  In (k, v) kwargs -> k <> rdcomment_id -> ~ In k params ->
+  replace params ctor cs hd o kwargs = Internal iAttributeError.
+Proof. exact replace_refuses_unknown_field. Qed.
+Print Assumptions replace_refuses_unknown.
+
+Theorem replace_without_arguments : forall params ctor cs hd o,
+  ogetattr o rdcomment_id = Some VNone ->
+  replace params ctor cs hd o [] =
+  (do args <- map_res (fun k => match ogetattr o k with Some v => Ok v | None => Internal iAttributeError end) params;
+   ctor args).
+Proof. exact replace_nothing. Qed.
+Print Assumptions replace_without_arguments.
+
 (* finding: without the hypothesis `pre` the statement is false - objects unknown to constify
    (dns.edns.Option inside an OPT record) stay mutable *)
 Theorem constify_immutable_refuted : exists v, hashable v = true /\ imm (constify v) = false.
@@ -629,3 +665,17 @@ Example ex_immutable_blocked :
   rstep st (RInpl ISub 0 0) = (st, E eTypeError) /\
   fst (rstep st (RFunc FOr 2 0 1)) = st ++ [mkRds KImm 1 2 0 60 [ex_a; ex_b] [] None].
 Proof. repeat split. Qed.
+
+(* an OPENPGPKEY-like object: no slot of its own, the key in the instance dictionary *)
+Example ex_copy :
+  let cs := [0; 1; 2] in
+  let o := mkObj [(0, VInt 1); (1, VInt 61); (2, VNone)] [(3, VBytes [1; 2; 3])] in
+  wf_obj cs o /\ getstate cs o = Ok [(0, VInt 1); (1, VInt 61); (2, VNone); (3, VBytes [1; 2; 3])] /\
+  setstate cs true [(0, VInt 1); (1, VInt 61); (2, VNone); (3, VBytes [1; 2; 3])] = Ok o /\
+  setstate cs true [(0, VInt 1); (1, VInt 61); (2, VNone)] <> Ok o.
+Proof.
+  cbv zeta. split; [|split; [reflexivity|split; [reflexivity|discriminate]]].
+  repeat split; cbn; repeat constructor; cbn; try tauto; try lia;
+    try (intros [H|[H|[H|[]]]]; discriminate); try (intros [H|[H|[]]]; discriminate);
+    try (intros [H|[]]; discriminate); try (intros k [<-|[]] [H|[H|[H|[]]]]; discriminate).
+Qed.
